@@ -225,6 +225,12 @@ func init() {
 					out = append(out, &Config{ID: fmt.Sprintf("C06/vers/%s/tail%d", scheme, n), Pkg: zzhPkg, Func: "C06Vers", NoPanic: true, ScalarMergeOnly: true,
 						Args: []ArgSpec{ArgTmpl("vers:" + scheme + "/" + rawTemplate("A", n)), ArgTmpl("{d}.{d}.{d}")}})
 				}
+				// the same tails against a pre-release probe (adapters treat those specially)
+				preProbe := map[string]string{"npm": "{d}.{d}.{d}-{l}", "deb": "{d}.{d}~{l}", "pypi": "{d}.{d}{[abc]}{d}", "maven": "{d}.{d}-{l}{l}", "golang": "v{d}.{d}.{d}-{l}"}[scheme]
+				for n := 0; n <= 3; n++ {
+					out = append(out, &Config{ID: fmt.Sprintf("C06/vers/%s/pretail%d", scheme, n), Pkg: zzhPkg, Func: "C06Vers", NoPanic: true, ScalarMergeOnly: true,
+						Args: []ArgSpec{ArgTmpl("vers:" + scheme + "/" + rawTemplate("A", n)), ArgTmpl(preProbe)}})
+				}
 				for n := 0; n <= 3; n++ {
 					out = append(out, &Config{ID: fmt.Sprintf("C06/vers/%s/version%d", scheme, n), Pkg: zzhPkg, Func: "C06Vers", NoPanic: true, ScalarMergeOnly: true,
 						Args: []ArgSpec{ArgTmpl("vers:" + scheme + "/>={d}.{d}|<{d}.{d}.{d}"), ArgTmpl(rawTemplate("A", n))}})
